@@ -16,7 +16,7 @@ RULE = ("tuples of 1..4 frames (0..6 rows, 1..4 columns) with overlapping / disj
         "different column sets (rbind/cbind/update) or a result whose column list differs from the input (others)")
 
 # column names incl. names that contain other names ("ab" / "a" / "b", "d_e" / "d" / "e"): a name is a key, never a pattern
-FAMILIES = {"a": ["int", "float", "bool"], "b": ["str"], "c": ["date"], "d": ["float", "int"], "e": ["timedelta"], "f": ["datetime"],
+FAMILIES = {"a": ["int", "float", "bool"], "b": ["str", "str", "strlong"], "c": ["date"], "d": ["float", "int"], "e": ["timedelta"], "f": ["datetime"],
             "ab": ["int", "float"], "d_e": ["float"]}
 # objects with a history are also left grouped by an earlier group_by (harness/warm.py), except for `modify`, which is
 # documented as group-wise on a grouped receiver
@@ -81,7 +81,7 @@ def gen_case(rng, tier):
         elif op == "modify":
             kvs = []
             for key in rng.sample(names + ["p", "q"], rng.randint(1, 2)):
-                kvs.append([key, rng.choice(["scalar", "vector", "callable", "scalar", "vector", "callable", "longvector", "longcallable"])])
+                kvs.append([key, rng.choice(["scalar", "vector", "callable", "scalar", "vector", "callable", "longvector", "longcallable"] + SCALAR_KINDS)])
             if rng.random() < 0.35 and any(c["kind"] in ("int", "float") for c in f["cols"]) and f["n"] >= 1:
                 # a callable that READS a column of the receiver, listed after a value that replaces that very column: every
                 # callable is handed the frame modify was called on
@@ -104,13 +104,37 @@ def gen_cases(ctx):
         fr = gen_frame(rng, names, nrow=3)
         cases.append({"op": "unselect", "frames": [fr], "cols": drop})
         cases.append({"op": "select", "frames": [fr], "cols": drop})
+    # a one-row operand (what `data.filter(id=3)` gives) broadcast into a longer receiver, holding strings around and beyond
+    # NumPy's inline small-string size (15 bytes of UTF-8), also with multi-byte characters
+    for op in ("cbind", "update"):
+        for strs in (["a" * 15], ["a" * 16], ["ä" * 8], [LONGSTR], ["\U0001F1EB\U0001F1EE" * 3], ["a" * 49], ["a" * 50 + "x"]):
+            for nrecv in (2, 4):
+                cases.append({"op": op, "frames": [{"n": nrecv, "cols": [i2("a", list(range(nrecv))), {"name": "b", "kind": "str", "vals": ["x"] * nrecv}]},
+                                                   {"n": 1, "cols": [{"name": "b" if op == "update" else "s", "kind": "strlong", "vals": strs}, i2("d", [7])]}]})
     n = 600 if ctx.tier == "quick" else 15000
     for _ in range(n):
         cases.append(gen_case(rng, ctx.tier))
     return cases
 
 
+# scalars of the types a caller may hold one in: Python numbers that are not int / float (complex, Decimal, Fraction), strings
+# longer than NumPy's inline small-string size and with multi-byte characters, and the same string as a ready one-row column
+SCALAR_KINDS = ["scalar:complex", "scalar:decimal", "scalar:fraction", "scalar:longstr", "scalar:onerowcol", "scalar:npint"]
+LONGSTR = "Hämeenlinna, Kanta-Häme — ääääääää"
+
+
+def scalar_of(kind):
+    import dataiter as di
+    import decimal
+    import fractions
+    return {"scalar:complex": 2 + 1j, "scalar:decimal": decimal.Decimal("0.24"), "scalar:fraction": fractions.Fraction(1, 3),
+            "scalar:longstr": LONGSTR, "scalar:onerowcol": di.DataFrame(c=[LONGSTR]).c, "scalar:npint": np.int32(7)}[kind]
+
+
 def modify_value(kind, key, n):
+    if kind.startswith("scalar:"):
+        v = scalar_of(kind)
+        return v, [vecgen.canon_elem(LONGSTR if kind == "scalar:onerowcol" else v)]
     if kind.startswith("reads:"):
         col = kind.split(":", 1)[1]
         return (lambda x: x[col].is_na()), None          # (the expected values come from the receiver's own column)
@@ -182,7 +206,7 @@ def model_requests(case, obs):
         a["to_from"] = case["to_from"]
     if op == "modify":
         n = case["frames"][0]["n"]
-        a["kvs"] = [[k, 1 if kind == "scalar" else n + 2 if kind.startswith("long") else n] for k, kind in case["kvs"]]
+        a["kvs"] = [[k, 1 if kind.startswith("scalar") else n + 2 if kind.startswith("long") else n] for k, kind in case["kvs"]]
     return [("bind", a)]
 
 
@@ -232,7 +256,7 @@ def source_value(case, src):
     if src[0] == "v":
         kind = dict(map(tuple, case["kvs"]))[src[1]]
         vec = modify_value(kind, src[1], case["frames"][0]["n"])[1]
-        return ("int", vec[src[2]])
+        return ("int" if not kind.startswith("scalar:") or kind == "scalar:npint" else "obj", vec[src[2]])
     raise ValueError(src)
 
 
@@ -281,7 +305,7 @@ def expected_layout(case):
     if op == "modify":
         out = [[nm, fit(0, nm, n0)] for nm in names(F[0])]
         for key, kind in case["kvs"]:
-            ln = 1 if kind == "scalar" else n0 + 2 if kind.startswith("long") else n0
+            ln = 1 if kind.startswith("scalar") else n0 + 2 if kind.startswith("long") else n0
             if kind.startswith("reads:"):
                 cells = [["r", kind.split(":", 1)[1], r] for r in range(n0)]
             elif ln == n0:
